@@ -903,15 +903,13 @@ clientInterpretRequestHeaders(ClientHttpRequest * http)
 
         if (request->range) {
             request->flags.isRanged = true;
-            clientStreamNode *node = (clientStreamNode *)http->client_stream.tail->data;
-            /* XXX: This is suboptimal. We should give the stream the range set,
-             * and thereby let the top of the stream set the offset when the
-             * size becomes known. As it is, we will end up requesting from 0
-             * for every -X range specification.
-             * RBC - this may be somewhat wrong. We should probably set the range
-             * iter up at this point.
-             */
-            node->readBuffer.offset = request->range->lowestOffset(0);
+            // Do not start reading the stored response at the lowest requested
+            // offset: whether the Range header will be honoured is only known
+            // when the reply is built (If-Range, unsatisfiable, out-of-order or
+            // overlapping specs, unknown length ...). If it is then ignored,
+            // a disk hit sent a "200 OK" whose body began at that offset. The
+            // range iterator skips unwanted leading bytes and asks the store
+            // for the next wanted offset itself.
         }
     }
 
